@@ -19,11 +19,14 @@ BASE_US = {
     "m0": -16,                                                      # just below zero: -16 us and up (k + 1 stays negative)
     "epoch": 0,
     "p1e9": 10 ** 15,                                               # +10^9 s (2001)
+    "y2106": 2 ** 32 * 10 ** 6,                                    # 2^32 s: float grain 2^-20 s = 0.95 us, the last magnitude where floats resolve microseconds
     "y9000": (datetime(9000, 1, 1, tzinfo=timezone.utc) - EPOCH) // _US,           # floats resolve multiples of 1/64 s here
     "y9000c": (datetime(9000, 6, 1, 12, 30, 15, 123456, tzinfo=timezone.utc) - EPOCH) // _US,  # microsecond grain: float is coarse
 }
-UNIT_US = {"n1e9": 1, "m0": 1, "epoch": 1, "p1e9": 1, "y9000": 15625, "y9000c": 1}
+UNIT_US = {"n1e9": 1, "m0": 1, "epoch": 1, "p1e9": 1, "y2106": 1, "y9000": 15625, "y9000c": 1}
 STRIDES = {"n1e9": (1, 999983, 1000001), "m0": (1,), "epoch": (1, 999983, 1000001, 86400 * 10 ** 6), "p1e9": (1, 999983, 1000001),
+           # at 2^32 s a float is within 0.48 us of the microsecond it stands for: sloppy arithmetic shows on ~10 % of the offsets
+           "y2106": (1, 999983, 1000001, 7, 13, 31, 97, 101, 1009, 4099, 65537, 131071, 262147, 524309, 77, 333),
            "y9000": (1, 64), "y9000c": (1, 7)}
 ZONES = (timezone.utc, timezone(timedelta(hours=5, minutes=30)), timezone(timedelta(hours=-8)))
 
